@@ -20,10 +20,10 @@ import (
 // dispatch pool D (DESIGN §4). Patterns with interceptor rules are only
 // meaningful in I1/I2; in I0 the same text is a regexp, which is fine too.
 var poolStatic = []string{"/", "/a", "/ab", "/abc", "/b", "/a/b", "/a/b/c", "a"}
-var poolNamed = []string{"/{x}", "/{x}/b", "/{x}/bc", "/a/{x}", "/a/{x}/{y}", "/a/{x}/{y}/c", "/a/{x}-{y}", "/a/{x}-{y}.h", "/a{x}", "/{-x}/b", "/a/{-x}/{y}", "/a/{x}/", "/a/{z}/bd", "/{xy}/c", "/a/{xy}/d"}
-var poolRegexp = []string{`/{x:\d+}`, `/a/{x:\d+}`, `/a/{x:\d+}.h`, `/a/{x:\d*}`, `/a/{x}/{y:\d+}`, `/a/{x:[ab]+}/b`, `/a/{-x:\d+}/c`, `/a/{x:\d+}/bc`, `/a/{x:\d}/q`}
+var poolNamed = []string{"/{x}", "/{x}/b", "/{x}/bc", "/a/{x}", "/a/{x}/{y}", "/a/{x}/{y}/c", "/a/{x}-{y}", "/a/{x}-{y}.h", "/a{x}", "/{-x}/b", "/a/{-x}/{y}", "/a/{x}/", "/a/{z}/bd", "/{xy}/c", "/a/{xy}/d", "/a/{x}/bc"}
+var poolRegexp = []string{`/{x:\d+}`, `/a/{x:\d+}`, `/a/{x:\d+}.h`, `/a/{x:\d*}`, `/a/{x}/{y:\d+}`, `/a/{x:[ab]+}/b`, `/a/{-x:\d+}/c`, `/a/{x:\d+}/bc`, `/a/{x:\d}/q`, `/a/{x:\d+}/bd`, `/a/{-x:a|b}/c`, `/a/{x:a|ab}`}
 var poolGreedy = []string{`/{x:.+}/b`}
-var poolIcpt = []string{"/a/{x:digit}", "/a/{x:digit}/b", "/{x:word}/b", "/a/{x:any}", "/a/{-x:digit}/c", "/a/{x:any}bb"}
+var poolIcpt = []string{"/a/{x:digit}", "/a/{x:digit}/b", "/{x:word}/b", "/a/{x:any}", "/a/{-x:digit}/c", "/a/{x:any}bb", "/a/{x:digit}/cd", "/a/{x:digit}/ce"}
 var indexBlock = []string{"/c", "/d", "/e", "/f", "/g"}
 
 func poolD(ic string, tier string) []string {
